@@ -3,6 +3,7 @@
 From Coq Require Import List NArith Bool Arith.
 Import ListNotations.
 From Verif Require Import Facts_vm_writes IsolationM Isolation_proofs FramesM.
+From Verif Require Import Facts_buildstate BuildState_proofs.
 Close Scope N_scope.
 
 (* Full statement over the model: for any number of runs of one artefact,
@@ -37,6 +38,27 @@ Definition write_classified (s : N * N) : bool := negb (N.eqb (snd s) 0).
 Theorem C10_writes_classified :
   forallb write_classified shared_writes = true /\ stale_write_entries = 0%N.
 Proof. split; vm_compute; reflexivity. Qed.
+
+(* builds do not share state either: the list, regenerated from the sources, of
+   the package level variables of internal/compiler, internal/compiler/types,
+   the root package and native with the sites that write them, joined with the
+   classification of checks/C19_globals.json.  No variable and no write site is
+   state that one build leaves to the next (cross_build_vars is empty), every
+   variable that can change is classified, the read-only ones have no write
+   site, every write site is classified and the classification has no stale
+   entry: a cache of native functions, of types or of compiled functions that
+   lives in a package level variable makes this obligation fail. *)
+Theorem C10_no_state_across_builds :
+  cross_build_vars = [] /\
+  forallb var_classified gen_package_vars = true /\
+  forallb var_readonly_ok gen_package_vars = true /\
+  forallb BuildState_proofs.write_classified gen_package_var_writes = true /\
+  gen_stale_buildstate_entries = 0%N.
+Proof.
+  exact (conj no_cross_build_state (conj vars_classified_ok (conj readonly_vars_have_no_write
+           (conj writes_classified_ok no_stale_buildstate_entry)))).
+Qed.
+Print Assumptions C10_no_state_across_builds.
 
 (* instance: n frame machines (C12) stepping the same action tree *)
 Definition frames_gstep (a : unit) (c : unit) (s : state) : unit * unit * (state + (outcome * list event)) :=
